@@ -927,29 +927,55 @@ ListingChecks ==
                 ~PrefI(Append(p, Line.children[j]), Append(p, Line.children[i]),
                        LastStartedI(Append(p, Line.children[j])) < LastStartedI(Append(p, Line.children[i]))),
              "C04:queued-invocations-not-listed-in-scheduling-order">>,
-           <<Line.executing = Cardinality(ExecWI(p)), "C01:executing-workers-count-differs-from-executing-tasks">>,
-           <<Line.idle = idle /\ Line.idle_sync = idleSync, "C01:idle-workers-count-differs-from-workers">>,
+           <<Line.executing = Cardinality(ExecWI(p)), "NC:listed-executing-workers-count-differs-from-executing-tasks">>,
+           <<Line.idle = idle /\ Line.idle_sync = idleSync, "NC:listed-idle-workers-count-differs-from-workers">>,
            <<Line.queued_direct = Cardinality(DirectI(p)) /\ Line.queued_indirect = Cardinality(UnderI(p)) - Cardinality(DirectI(p)),
-             "C01:queued-operations-count-differs-from-queue">>,
+             "NC:listed-queued-operations-count-differs-from-queue">>,
            <<SeqSet(Line.all) = SeqSet(node.children) /\ Line.n_children = Len(node.children), "NC:children-listing">>,
-           <<SeqSet(Line.active) = {c \in SeqSet(node.children) : UnderI(Append(p, c)) # {} \/ ExecWI(Append(p, c)) # {}}, "C01:active-invocations-listing-differs">>
+           <<SeqSet(Line.active) = {c \in SeqSet(node.children) : UnderI(Append(p, c)) # {} \/ ExecWI(Append(p, c)) # {}}, "NC:active-invocations-listing-differs">>
          >>
     [] Line.what = "workers" ->
          LET q == S.queues[Line.queue + 1] IN <<
            <<Line.ok, "NC:listing-failed">>,
-           <<SeqSet(Line.ids) = {w.id : w \in Rng(q.workers)} /\ NoDup(Line.ids), "C01:listed-workers-differ">>,
+           <<SeqSet(Line.ids) = {w.id : w \in Rng(q.workers)} /\ NoDup(Line.ids), "NC:listed-workers-differ">>,
            <<\A i \in DOMAIN Line.ids : \A w \in Rng(q.workers) : w.id = Line.ids[i] =>
                /\ Line.drained[i] = DrainedRef(q, w)
                /\ Line.timeouts[i] = w.cleanup_at
                /\ (w.task = 0 <=> Line.ops[i] = "")
                /\ (w.task # 0 => Line.ops[i] \in Rng(TaskOf(S, w.task).ops)),
-             "C05:listed-worker-state-differs">>
+             "NC:listed-worker-state-differs">>
          >>
     [] Line.what = "operations" -> <<
-           <<SeqSet(Line.names) = OpNames(S) /\ NoDup(Line.names) /\ Line.total = Cardinality(OpNames(S)), "C01:paginated-operations-listing-differs">>,
+           <<SeqSet(Line.names) = OpNames(S) /\ NoDup(Line.names) /\ Line.total = Cardinality(OpNames(S)), "NC:paginated-operations-listing-differs">>,
            <<\A i, j \in DOMAIN Line.names : i < j => OpNum(Line.names[i]) < OpNum(Line.names[j]), "NC:operations-not-sorted">>,
            <<\A i \in DOMAIN Line.names : HasOp(S, Line.names[i]) => Line.stages[i] = TaskOf(S, OpOf(S, Line.names[i]).task).stage,
-             "C02:listed-stage-differs-from-task-stage">>
+             "NC:listed-stage-differs-from-task-stage">>
+         >>
+    [] Line.what = "drains" ->
+         LET q == S.queues[Line.queue + 1] IN <<
+           <<Line.ok, "NC:listing-failed">>,
+           <<{PatSet(Line.patterns[i]) : i \in DOMAIN Line.patterns} = DrainsOf(q) /\ Len(Line.patterns) = Cardinality(DrainsOf(q)),
+             "NC:listed-drains-differ">>
+         >>
+    [] Line.what = "getop" -> <<
+           <<Line.ok <=> HasOp(S, Line.name), "NC:get-operation-finds-exactly-the-existing-operations">>,
+           <<(Line.ok /\ HasOp(S, Line.name)) =>
+               LET o == OpOf(S, Line.name) IN
+                 /\ Line.stage = TaskOf(S, o.task).stage
+                 /\ Line.prio = o.prio
+                 /\ Line.inv = o.inv,
+             "NC:get-operation-state-differs">>
+         >>
+    [] Line.what = "workers_filtered" ->
+         LET q == S.queues[Line.queue + 1]
+             p == Line.path
+             execs == {t.worker : t \in {t \in Tasks(S) : t.stage = "E" /\ t.worker_queue = Line.queue /\
+                                             \E n \in Rng(t.ops) : HasOp(S, n) /\ PathPrefix(p, OpOf(S, n).inv)}}
+             parkedAt == {w.id : w \in {w \in Rng(q.workers) : w.parked /\ w.has_last /\ w.last = p}}
+         IN <<
+           <<Line.ok, "NC:listing-failed">>,
+           <<SeqSet(Line.executing) = execs /\ NoDup(Line.executing), "NC:listed-executing-workers-differ">>,
+           <<SeqSet(Line.idle_sync) = parkedAt /\ NoDup(Line.idle_sync), "NC:listed-idle-synchronizing-workers-differ">>
          >>
     [] OTHER -> << <<TRUE, "ok">> >>
 
